@@ -1,0 +1,26 @@
+// Copyright 2025 - See NOTICE file for copyright holders.
+//
+// Licensed under the Apache License, Version 2.0 (the "License");
+// you may not use this file except in compliance with the License.
+// You may obtain a copy of the License at
+//
+//     http://www.apache.org/licenses/LICENSE-2.0
+//
+// Unless required by applicable law or agreed to in writing, software
+// distributed under the License is distributed on an "AS IS" BASIS,
+// WITHOUT WARRANTIES OR CONDITIONS OF ANY KIND, either express or implied.
+// See the License for the specific language governing permissions and
+// limitations under the License.
+
+//go:build verif
+
+package wire
+
+// VerifCounts returns the number of subscriptions and the number of cached
+// envelopes of the relay. Read-only; only compiled with the verif build tag.
+func (p *Relay) VerifCounts() (subs, cached int) {
+	p.mutex.RLock()
+	defer p.mutex.RUnlock()
+
+	return len(p.consumers), p.cache.Size()
+}
